@@ -729,7 +729,16 @@ the buffer's `filled_size`, sample number 0 (the offset `encode_fixed_size_frame
 def FrameShape (fb : Gen.Coding.FrameBuf) (f : Gen.Writer.Frame) : Prop :=
   f.precomputed_bitstream = none ∧
   f.header.block_size_spec = Gen.Headers.BlockSizeSpec.from_size (fb.filled_size % 65536) ∧
-  f.header.start_sample_number = 0 ∧ f.header.frame_number = 0
+  f.header.start_sample_number = 0 ∧ f.header.frame_number = 0 ∧ C08Gen.ChanOk f.header.channel_assignment
+
+theorem chanOk_choose (st : StereoCfg) (a b c d : Nat) : C08Gen.ChanOk (C02Hdr.caToGen (chooseStereo st a b c d)) := by
+  rcases Strict.chooseStereo_cases st a b c d with h | h | h | h <;> rw [h] <;> simp [C02Hdr.caToGen, C08Gen.ChanOk]
+
+theorem shape_of_implHeader (fb : Gen.Coding.FrameBuf) (info : StreamInfo) (X Y : Gen.Headers.ChannelAssignment)
+    (subs : List SubFrame) (h : C08Gen.ChanOk Y) :
+    FrameShape fb ⟨{ implHeader fb info X 0 with channel_assignment := Y }, subs, none⟩ := by
+  simp [FrameShape, implHeader, Gen.Verify.FrameHeader.set_frame_offset, Gen.Verify.FrameHeader.set_start_sample_number,
+    FrameHeader.from_specs, h]
 
 /-- **value-level `encode_frame`**: whatever it returns has `FrameShape` (both the independent and the stereo branch). -/
 theorem encode_frame_shape (s1 : List (List Int)) (s2 : List Int) (s3 : Gen.Coding.FrameBuf) (c : Gen.Encoder)
@@ -790,14 +799,12 @@ theorem encode_frame_shape (s1 : List (List Int)) (s2 : List Int) (s3 : Gen.Codi
             intro r h
             simp only [Option.some.injEq] at h
             subst h
-            simp [FrameShape, implHeader, Gen.Verify.FrameHeader.set_frame_offset, Gen.Verify.FrameHeader.set_start_sample_number,
-              FrameHeader.from_specs]
+            exact shape_of_implHeader fb info _ _ _ (chanOk_choose _ _ _ _ _)
     · rw [if_neg h2]
       intro r h
       simp only [C09Gen.pureM_apply, Option.some.injEq] at h
       subst h
-      simp [FrameShape, implHeader, Gen.Verify.FrameHeader.set_frame_offset, Gen.Verify.FrameHeader.set_start_sample_number,
-        FrameHeader.from_specs]
+      exact shape_of_implHeader fb info (.Independent info.channels) (.Independent info.channels) _ (by simp [C08Gen.ChanOk]; omega)
 
 /-- the generated block-size code of a `u16` size `1 ≤ n` stands for `n`, and reading it back cannot panic -/
 theorem blockSize_fromSize_gen (n : Nat) (h1 : 1 ≤ n) (h2 : n < 2 ^ 16) :
@@ -825,7 +832,7 @@ theorem C03G_encoder_frame_ok (vs : Gen.Coding.FrameBuf → Nat → Gen.Verify.V
     (h : encode_fixed_size_frame vs s1 s2 s3 c fb number info log = some (some g, l')) :
     g.precomputed_bitstream = none ∧ g.header.frame_number < 2 ^ 32 ∧ g.header.start_sample_number < 2 ^ 64 ∧
     Gen.Verify.FrameHeader.block_size g.header = fb.filled_size ∧ FrameFits g ∧
-    (C08Gen.frameOfGen g).count = some (Gen.Writer.Frame.count_bits g) := by
+    (C08Gen.frameOfGen g).count = some (Gen.Writer.Frame.count_bits g) ∧ C08Gen.FrameOk g := by
   -- the model image
   have himg := C09G_encode_fixed_size_frame vs s1 s2 s3 c fb number info log hst hfb hn hch hb hx hmax hmo hrate hlog hnum hcn hvs
   rw [h] at himg
@@ -848,7 +855,7 @@ theorem C03G_encoder_frame_ok (vs : Gen.Coding.FrameBuf → Nat → Gen.Verify.V
     cases her : encode_frame s1 s2 s3 c fb 0 info log with
     | none => simp [her] at h
     | some r =>
-      obtain ⟨hp, hbs, hss, _⟩ := encode_frame_shape s1 s2 s3 c fb info log hst hfb hn hch hb hx hmax hmo hlog r her
+      obtain ⟨hp, hbs, hss, _, hcok⟩ := encode_frame_shape s1 s2 s3 c fb info log hst hfb hn hch hb hx hmax hmo hlog r her
       rw [her] at h
       simp only [Option.bind_some] at h
       cases h
@@ -886,7 +893,7 @@ theorem C03G_encoder_frame_ok (vs : Gen.Coding.FrameBuf → Nat → Gen.Verify.V
         unfold C09.subTotal at htot
         omega
       have hfn : number % 4294967296 < 2 ^ 32 := Nat.mod_lt _ (by decide)
-      refine ⟨hp, ?_, ?_, ?_, ⟨?_, ?_⟩, ?_⟩
+      refine ⟨hp, ?_, ?_, ?_, ⟨?_, ?_⟩, ?_, ⟨hp, ?_, fun sf hsf => (hs sf hsf).1⟩⟩
       · simpa [Gen.Verify.FrameHeader.set_frame_offset, Gen.Verify.FrameHeader.set_frame_number] using hfn
       · simp [Gen.Verify.FrameHeader.set_frame_offset, Gen.Verify.FrameHeader.set_frame_number, hss]
       · simp [Gen.Verify.FrameHeader.block_size, Gen.Verify.FrameHeader.set_frame_offset, Gen.Verify.FrameHeader.set_frame_number,
@@ -906,6 +913,7 @@ theorem C03G_encoder_frame_ok (vs : Gen.Coding.FrameBuf → Nat → Gen.Verify.V
           (by simpa [withNumber, Gen.Verify.FrameHeader.set_frame_offset, Gen.Verify.FrameHeader.set_frame_number] using hfn)
           (by simp [withNumber, Gen.Verify.FrameHeader.set_frame_offset, Gen.Verify.FrameHeader.set_frame_number, hss]) hs hsum hcf
         exact congrArg some this.symm
+      · simpa [Gen.Verify.FrameHeader.set_frame_offset, Gen.Verify.FrameHeader.set_frame_number] using hcok
 
 end shape
 
@@ -987,7 +995,7 @@ theorem C03G_frames_contract {T : Type} (ops : SourceOps T) (s1 : Nat → List (
         gs.map C08Gen.frameOfGen = fs ∧
         gs.map (fun g => Gen.Verify.FrameHeader.block_size g.header) = blocks.map (fun b => (b.headD []).length) ∧
         (∀ g ∈ gs, g.precomputed_bitstream = none ∧ g.header.frame_number < 2 ^ 32 ∧ g.header.start_sample_number < 2 ^ 64 ∧
-          FrameFits g ∧ (C08Gen.frameOfGen g).count = some (Gen.Writer.Frame.count_bits g)) := by
+          FrameFits g ∧ (C08Gen.frameOfGen g).count = some (Gen.Writer.Frame.count_bits g) ∧ C08Gen.FrameOk g) := by
   induction hd with
   | done src src' fbc fbc' hr hctx =>
     intro st i log logf fs hi _ _ _ henc _ _ _ _
@@ -1036,7 +1044,7 @@ theorem C03G_frames_contract {T : Type} (ops : SourceOps T) (s1 : Nat → List (
           | none => simp at hog
           | some g =>
             simp only [Option.map_some, Option.some.injEq] at hog
-            obtain ⟨hp, hfn, hss, hbsz, hfit, hcnt⟩ := C03G_encoder_frame_ok verifySamples (s1 fbc.2.frame_count)
+            obtain ⟨hp, hfn, hss, hbsz, hfit, hcnt, hfok⟩ := C03G_encoder_frame_ok verifySamples (s1 fbc.2.frame_count)
               (s2 fbc.2.frame_count) (s3 fbc.2.frame_count) c (fbToCoding fbc'.1) fbc.2.frame_count i log lg g (hst _)
               (hic ▸ hgood.ok) hgood.fill (hic ▸ hch) (hib ▸ hb) (by rw [hic, hib]; exact hgood.range) hmax hmo (hir ▸ hrate) hlog
               hlogok (by omega) (by rw [hic]; exact hgood.nch) (by rw [hib]; exact hgood.vs) hg
@@ -1066,7 +1074,7 @@ theorem C03G_frames_contract {T : Type} (ops : SourceOps T) (s1 : Nat → List (
             · intro x hx
               simp only [List.mem_cons] at hx
               rcases hx with rfl | hx
-              · exact ⟨hp, hfn, hss, hfit, hcnt⟩
+              · exact ⟨hp, hfn, hss, hfit, hcnt, hfok⟩
               · exact hall x hx
 
 
@@ -1112,7 +1120,7 @@ theorem C03G_driver_contract {T : Type} (ops : SourceOps T) (featPar : Bool) (pa
     (hmd : ∀ l, (md5f l).length = 16) :
     ∃ gs : List Gen.Writer.Frame, gs.map C08Gen.frameOfGen = fs ∧
       gs.map (fun g => Gen.Verify.FrameHeader.block_size g.header) = blocks.map (fun b => (b.headD []).length) ∧
-      (∀ g ∈ gs, (C08Gen.frameOfGen g).count = some (Gen.Writer.Frame.count_bits g)) ∧
+      (∀ g ∈ gs, (C08Gen.frameOfGen g).count = some (Gen.Writer.Frame.count_bits g)) ∧ (∀ g ∈ gs, C08Gen.FrameOk g) ∧
       ∀ fuel, blocks.length < fuel →
         encode_with_fixed_block_size featPar ops par md5f s1 s2 s3 fuel c src bs log =
           some (some ⟨⟨true, .StreamInfo (finishInfo (foldInfo { i0 with minBlock := bs, maxBlock := bs } gs) bs
@@ -1137,7 +1145,7 @@ theorem C03G_driver_contract {T : Type} (ops : SourceOps T) (featPar : Bool) (pa
   have hlen : gs.length = blocks.length := by
     have := congrArg List.length hsz
     simpa using this
-  refine ⟨gs, hmap, hsz, fun g hg => (hall g hg).2.2.2.2, ?_⟩
+  refine ⟨gs, hmap, hsz, fun g hg => (hall g hg).2.2.2.2.1, fun g hg => (hall g hg).2.2.2.2.2, ?_⟩
   intro fuel hf
   have hfm : ∀ (l : List Gen.Writer.Frame) (j : StreamInfo), (foldInfo j l).md5 = j.md5 := by
     intro l
@@ -1208,8 +1216,9 @@ theorem C03G_driver_contract_model_success {T : Type} (ops : SourceOps T) (featP
           some (some ⟨⟨true, .StreamInfo (finishInfo (foldInfo { i0 with minBlock := bs, maxBlock := bs } gs) bs
               (md5f (md5Input (ops.bits_per_sample src) ((blocksOf bs chans).flatMap Rfc.interleave)))
               (lh.getD (((blocksOf bs chans).map fun b => (b.headD []).length).sum)))⟩, [], gs⟩, logf) := by
-    exact C03G_driver_contract ops featPar par md5f s1 s2 s3 c src srcf bs log logf i0 m0 fbcf lh
+    obtain ⟨gs, h1, h2, h3, _, h5⟩ := C03G_driver_contract ops featPar par md5f s1 s2 s3 c src srcf bs log logf i0 m0 fbcf lh
       (blocksOf bs chans) fs hmt hnew hfb hst hb hmax hmo hd henc hlog hlogok hnb hlh hmd
+    exact ⟨gs, h1, h2, h3, h5⟩
   intro fuel hf
   rw [hrun fuel hf]
   unfold encodeStream
